@@ -186,6 +186,9 @@ type explorer struct {
 	seen  *core.Seen
 	st    stats
 	shr   map[string]int
+
+	frontier []node
+	depth    int
 }
 
 func (e *explorer) path(idx int32, last int) []Sym {
@@ -338,7 +341,9 @@ func (e *explorer) expand(frontier []node, depth int) (next []node, complete boo
 	return next, true
 }
 
-func (e *explorer) run(maxDepth int) {
+// start checks the initial state; step expands one BFS level. Levels are interleaved between the two
+// disciplines by main so that a deadline cuts both at the same depth.
+func (e *explorer) start() {
 	r := e.r
 	w, m := replayPath(e.disc, nil)
 	e.seen.Add(stateHash(e.disc, w, m))
@@ -347,35 +352,35 @@ func (e *explorer) run(maxDepth int) {
 	for _, f := range CheckState(w, m, illegalIn(m, e.alpha), &e.st, r.Vacuity, func() *World { w2, _ := replayPath(e.disc, nil); return w2 }) {
 		e.report(f, nil)
 	}
-	frontier := []node{{0, m}}
-	depth := 0
-	const shardLevel = 2
-	for depth < maxDepth && len(frontier) > 0 {
-		if depth == shardLevel {
-			// levels 0..2 are computed identically by every shard; the level-2 states are dealt out
-			var mine []node
-			for i, nd := range frontier {
-				if e.f.Mine(i) {
-					mine = append(mine, nd)
-				}
+	e.frontier = []node{{0, m}}
+}
+
+const shardLevel = 2
+
+func (e *explorer) step() bool {
+	r := e.r
+	if e.depth == shardLevel {
+		// levels 0..2 are computed identically by every shard; the level-2 states are dealt out
+		var mine []node
+		for i, nd := range e.frontier {
+			if e.f.Mine(i) {
+				mine = append(mine, nd)
 			}
-			frontier = mine
 		}
-		next, complete := e.expand(frontier, depth)
-		if !complete {
-			r.Exhaustive = false
-			break
-		}
-		depth++
-		frontier = next
-		fmt.Fprintf(os.Stderr, "  %s depth %d: frontier %d states %d transitions %d %.1fs\n", e.disc, depth, len(frontier), r.States, r.Transitions, time.Since(e.f.Start).Seconds())
+		e.frontier = mine
 	}
-	if r.DepthCompleted == 0 || depth < r.DepthCompleted {
-		r.DepthCompleted = depth
+	next, complete := e.expand(e.frontier, e.depth)
+	if !complete {
+		r.Exhaustive = false
+		return false
 	}
+	e.depth++
+	e.frontier = next
+	fmt.Fprintf(os.Stderr, "  %s depth %d: frontier %d states %d transitions %d %.1fs\n", e.disc, e.depth, len(e.frontier), r.States, r.Transitions, time.Since(e.f.Start).Seconds())
 	if e.st.maxSlackHalfUlps > int(asInt(r.Extra["max_tolerance_half_ulps"])) {
 		r.Extra["max_tolerance_half_ulps"] = int64(e.st.maxSlackHalfUlps)
 	}
+	return true
 }
 
 // ---------------------------------------------------------------- main
@@ -419,9 +424,21 @@ func main() {
 		depth = *depthFlag
 	}
 	seen := core.NewSeen()
+	var es []*explorer
 	for _, disc := range []string{"fresh", "long"} {
 		e := &explorer{f: f, r: r, disc: disc, alpha: alpha, seen: seen, shr: map[string]int{}}
-		e.run(depth)
+		e.start()
+		es = append(es, e)
+	}
+	r.DepthCompleted = 0
+levels:
+	for d := 0; d < depth; d++ {
+		for _, e := range es {
+			if !e.step() {
+				break levels
+			}
+		}
+		r.DepthCompleted = d + 1
 	}
 	r.Traces = r.States
 	var names []string
